@@ -159,6 +159,17 @@ claim("C14",
       "values not judged). JSON bodies only. Documents kin-openapi cannot load are reported under C07 and skipped here.",
       "TLC exhaustive model checking + generated server vs schema oracle + TLC trace validation", "DESIGN.md 6 (C14)")
 
+claim("C12",
+      "DSLProgram.tla (a DSL program as a tree of calls executed by a pushdown automaton over evaluation contexts; a table of 120 public DSL functions with their "
+      "documented contexts and argument shapes that steers generation toward deep contexts and toward misplaced, ill-typed, nil, repeated and dangling calls; "
+      "declarative Dangling predicate over 8 kinds of reference) is model-checked with 26 deviation guards; TLC enumerates (depth-bounded) and simulates programs, "
+      "harness/cmd/dslhost maps every abstract call to a real call of the dsl package, runs eval.RunDSL in child processes (panic / timeout isolated and re-confirmed "
+      "alone) and the outcome (accepted / rejected with located errors / crashed) of every program is validated by TLC as a trace that recomputes Dangling itself; "
+      "accepted programs are handed to gen + go build.",
+      "Trusted: the (function, shape) -> concrete call table in dslhost; the Dangling predicate deliberately under-reports (a reference counts as declared "
+      "generously) so that it cannot raise false alarms. gRPC programs are evaluated but not generated (no protoc).",
+      "TLC enumeration/simulation of programs + real DSL evaluation in child processes + TLC trace validation", "DESIGN.md 6 (C12)")
+
 for p in ALL:
     if p not in CLAIMED:
         NOT_APPLICABLE[p] = "check not built yet in this revision (planned with the same technique, see DESIGN.md section 6)"
